@@ -254,7 +254,8 @@ pub fn prelude(kind: i64, seed: u64, m: &Model, ctx: &mut Ctx) {
     match kind {
         1 => {
             let cut = if m.bytes.len() > 20 { 16 + rng.usize_below(m.bytes.len() - 16) } else { m.bytes.len() / 2 };
-            let ro = read_slp(&m.bytes[..cut], &StreamSpec::default(), &[], OptsSpec { skip_frames: false, compute_hash: true });
+            // (half of them skip the frames: the cut then falls inside the region the reader jumps over)
+            let ro = read_slp(&m.bytes[..cut], &StreamSpec::default(), &[], OptsSpec { skip_frames: rng.chance(1, 2), compute_hash: true });
             ctx.probe_if(ro.res.is_err(), "prelude: a hashed read failed (truncated) before the scenario");
             ctx.fault("prelude_failed_read", ro.res.is_err() as u64);
         }
